@@ -1,4 +1,5 @@
 SPECIFICATION Spec
+CONSTANT Bug = "none"
 CONSTANT MaxDefects = 2
 CONSTANT MaxValidations = 1
 CONSTANT MaxPending = 1
